@@ -1,10 +1,12 @@
-"""C16 — INTEGER and REAL conversion helpers (leaf).
+"""C16 — INTEGER and REAL conversion helpers (leaf).  The REAL half lives in
+checks/c16_real.py and is called from main() below.
 Theorems: coq/Props/Properties_C16.v.  Tie: harness/leafdrv (C, built from
 /repo/skeletons with ASan+UBSan) vs ocaml/modeldrv (extracted model) on the same
 command lines; property oracle evaluated on the C outputs."""
 import sys, os
 sys.path.insert(0, os.path.join(os.path.dirname(os.path.abspath(__file__)), "..", "lib"))
 from vlib import *
+import c16_real
 
 I63, U64 = 2**63, 2**64
 
@@ -200,21 +202,27 @@ def main(tier):
             continue
         run.violation("oracle:strtox", {"what": "decimal parser does not accept exactly the in-range numerals", "command_line": line,
                                         "text": txt, "expected": exp, "c": c})
+    # REAL half: asn_double2REAL / asn_REAL2double (checks/c16_real.py)
+    n_real = c16_real.real_part(run, model, cdrv, tier, rng)
     # disagreements for which the oracle found no failing input stay violations (no-failing-input-found)
     oracle_lines = {v.get("command_line") for v in run.violations if v["kind"].startswith("oracle:")}
     for v in run.violations:
         if v.pop("_pending", False):
             v["no_failing_input_found"] = v["command_line"] not in oracle_lines
+    # report disagreements that come with a failing input first (only the first 20 replays are written)
+    run.violations.sort(key=lambda v: (bool(v.get("no_failing_input_found")), not v["kind"].startswith("oracle:")))
     tb = ["Coq 8.16.1 kernel + vm_compute (refuted witnesses only)", "axioms under Print Assumptions: " + (", ".join(sorted(axioms)) or "none (Closed under the global context)"),
           "extraction: ExtrOcamlBasic only; OCaml 4.13.1; zarith for decimal I/O in driver.ml",
           "harness/leafdrv.c, ocaml/driver.ml, checks/c16.py (generators, oracle in Python big integers)",
-          "gcc + ASan/UBSan build of /repo/skeletons/*.c", "LP64 data model"]
+          "gcc + ASan/UBSan build of /repo/skeletons/*.c", "LP64 data model"] + c16_real.TRUSTED
     return run.finish("proof", (nthm, ndis), trusted_base=tb,
                       checker_cmd="make -C /verif all && coqc -Q coq A1 coq/Props/Properties_C16.v",
                       extra_cov={"theorems": names, "rule": "boundary-exhaustive +-2^k+-{0,1,2}, all octet strings of length <= 2, sign/strip-boundary prefixes x random tails up to 12 octets, numerals around 10^k and each limit with leading zeros/signs/trailers; a case is one command line, all distinct",
-                                 "traces_validated_against_impl": len(lines)},
+                                 "traces_validated_against_impl": len(lines) + n_real,
+                                 "real_half": c16_real.THEOREMS_NOTE,
+                                 "real_rule": "doubles: every biased exponent 0..2047 x fractions {0, 1, 2^52-1, 2^k, patterns driving each mstop 0..6 and each make-odd shift 0..7, random}, both signs, NaN patterns; REAL octets: every first octet x short tails, every sign/base/scale/exponent-length code with exponents at the subnormal/normal/overflow boundaries and mantissas of 1..80 bits, subnormal rounding ties, exact encodings truncated at every length, 100..200-octet mantissas"},
                       assumptions=["model of skeletons/INTEGER.c is hand-written; tied by differential run only on the generated cases",
-                                   "NULL arguments (EINVAL) and allocation failure paths are not modelled"])
+                                   "NULL arguments (EINVAL) and allocation failure paths are not modelled"] + c16_real.ASSUMPTIONS)
 
 
 if __name__ == "__main__":
